@@ -19,7 +19,9 @@ import (
 	"encoding/json"
 	"errors"
 	"fmt"
+	"os"
 	"runtime"
+	"strconv"
 	"strings"
 	"sync"
 	"time"
@@ -118,8 +120,8 @@ func c20cRest() (direct int, drainerAtRest bool, fp string) {
 		if isDrainer {
 			drainerSeen = true
 		}
-		atLock := strings.Contains(hdr, "[sync.Mutex.Lock") || strings.Contains(hdr, "[sync.RWMutex.Lock") || strings.Contains(hdr, "[sync.RWMutex.RLock") ||
-			strings.Contains(hdr, "[chan send") // the block event
+		atLock := (strings.Contains(hdr, "[sync.Mutex.Lock") || strings.Contains(hdr, "[sync.RWMutex.Lock") || strings.Contains(hdr, "[chan send")) &&
+			strings.Contains(body, "main.c20cWorker") && c20cAtLedgerLock(body)
 		switch {
 		case strings.Contains(body, "main.c20cWorker") && atLock:
 			if isDrainer {
@@ -137,6 +139,40 @@ func c20cRest() (direct int, drainerAtRest bool, fp string) {
 		drainerAtRest = false
 	}
 	return direct, drainerAtRest, b.String()
+}
+
+var c20cAtCache = map[string]bool{}
+
+// A caller is at rest only where it takes one of the ledger's two locks or sends the block event (storeBlock also hands data
+// to its own helper goroutines over channels and takes other locks, for a moment): the statement at the file:line of the
+// innermost Blockchain frame is looked up in the source the harness was built against.
+func c20cAtLedgerLock(body string) bool {
+	lines := strings.Split(body, "\n")
+	for i := 0; i+1 < len(lines); i += 2 {
+		if !strings.Contains(lines[i], "core.(*Blockchain).") {
+			continue
+		}
+		at := strings.TrimSpace(lines[i+1])
+		if k := strings.Index(at, " "); k > 0 {
+			at = at[:k]
+		}
+		if v, ok := c20cAtCache[at]; ok {
+			return v
+		}
+		v := true // source not readable: every park counts
+		if k := strings.LastIndex(at, ":"); k > 0 {
+			if src, err := os.ReadFile(at[:k]); err == nil {
+				ls := strings.Split(string(src), "\n")
+				if n, err := strconv.Atoi(at[k+1:]); err == nil && n >= 1 && n <= len(ls) {
+					l := ls[n-1]
+					v = strings.Contains(l, "bc.events <-") || strings.Contains(l, "bc.addLock.Lock()") || strings.Contains(l, "bc.lock.Lock()")
+				}
+			}
+		}
+		c20cAtCache[at] = v
+		return v
+	}
+	return false
 }
 
 // c20cSettle waits until every direct caller that has not returned is parked at a lock and the drainer is at rest, seen twice
@@ -277,6 +313,9 @@ func c20RunConcCase(co *caseOut, raw json.RawMessage) error {
 			_, dr, fp := c20cRest()
 			if dr && !strings.Contains(fp, "idle;") {
 				n++
+			}
+			if os.Getenv("C20DEBUG") != "" {
+				fmt.Fprintf(os.Stderr, "step hold=%s after call %+v: parked %d, applied %v, at %s\n", st.Hold, c, n, appliedNow(), fp)
 			}
 			out.Parked = max(out.Parked, n)
 		}
